@@ -187,8 +187,9 @@ def run_shard(spec) -> Result:
         batch = []
         for op in ops:
             for pfx in (None, 0x32, 0x22, 0x36, 0x25):
-                for rep in range(2 if spec["tier"] == "quick" else 8):
-                    b2 = {0xE3: 0x24, 0xEB: 0x24, 0x56: 0x84, 0x5E: 0x84}.get(op, r.randrange(0x10, 0x60))
+                for rep in range((4 if op in (0xE3, 0xEB) else 2) if spec["tier"] == "quick" else 8):
+                    b2 = {0xE3: (0x24, 0x34, 0x37, 0x05)[rep % 4], 0xEB: (0x24, 0x34, 0x37, 0x05)[rep % 4],
+                          0x56: (0x84, 0xC5)[rep % 2], 0x5E: (0x84, 0xC5)[rep % 2]}.get(op, r.randrange(0x10, 0x60))
                     case = states.build_case(r, pfx, op, b2, "dist", small_payload=True, canonical=True, icount=0)
                     if case is None:
                         continue
